@@ -180,3 +180,23 @@ pub fn clone_from_counts<const NT: usize, const NS: usize>(it: usize, dt: usize,
     core::mem::forget(tgt);
     core::mem::forget(src);
 }
+
+/// clone() of a table with concrete occupancy counts (tombstones included): the clone's counters
+/// and free-slot accounting equal the source's.
+pub fn clone_counts<const N: usize>(items: usize, deleted: usize) {
+    reset();
+    let h: [u64; K] = any();
+    let mut t: TC = HashTable::with_capacity_in(capreq(N), LedgerAlloc);
+    let st = fill::<DC, _, N>(hv::raw_of_table(&mut t), Spec { items, deleted, kind: InvKind::Full, h: &h, distinct: true, id_is_slot: false, layout: None, concrete_tags: None });
+    let c = t.clone();
+    let rc = hv::raw_of_table_ref(&c);
+    assert!(buckets_of(rc) == N);
+    let sc = snap::<DC, _, N>(rc);
+    assert!(inv::<N>(&sc, InvKind::Full, &h, true, true));
+    assert!(sc.growth_left == st.growth_left && sc.items == st.items);
+    assert!(c.capacity() == t.capacity() && c.len() == t.len());
+    let q = any_id();
+    assert!(sc.mult(q) == st.mult(q));
+    core::mem::forget(c);
+    core::mem::forget(t);
+}
